@@ -100,7 +100,12 @@ impl Prop for C14 {
             p.lines.push(Line { label: next_label, sts });
             next_label += 1;
         }
-        let start = if rng.chance(1, 3) { 0 } else { rng.range(1, 200) as u16 };
+        // (line numbers above 32767 are not Integer literals to the lexer: some programs straddle that mark)
+        let start = match rng.usize(6) {
+            0 | 1 => 0,
+            2 => *rng.pick(&[32_700u16, 32_760, 32_768, 40_000]),
+            _ => rng.range(1, 200) as u16,
+        };
         let step0 = *rng.pick(&[1u16, 2, 5, 10, 10, 100]);
         p.number(start, step0);
         let before = render(&p);
